@@ -72,7 +72,10 @@ A3(cfg, scope, user, b) ==
    IF Abort(b) THEN Rep(2, 0, MAbort, NoH)
    ELSE IF AsCont(b).cls # "ok" THEN Rep(7, 0, MExpGetPass, NoH)
    ELSE IF AsCont(b).v.msg = <<>> THEN Rep(2, 0, MUnknownUserPw, NoH)
-   ELSE IF ~HasUser(cfg, scope, user) THEN Rep(2, 0, Bracket(MAuthDeniedPfx, user), NoH)
+   \* a user name that came in a CONTINUE may be too long to be quoted in a server message (length field of two octets):
+   \* the reply then goes out without it (fix 44025ee; before it the request got no reply at all)
+   ELSE IF ~HasUser(cfg, scope, user) THEN (IF Len(Bracket(MAuthDeniedPfx, user)) > 65535 THEN Rep(2, 0, MAuthDenied, NoH)
+                                            ELSE Rep(2, 0, Bracket(MAuthDeniedPfx, user), NoH))
    ELSE Authenticate(TheUser(cfg, scope, user), b)
 
 \* ---- PAP -----------------------------------------------------------------
